@@ -342,12 +342,16 @@ def tsTable (guard : Bool) (conc : Option Nat → Bool) (cs : List Clause) : Lis
     `rt ty` = the `reflect.Type` of case type `ty` (interpreted named types are emulated, so two
     distinct types may share it).  The jump table (`typeswitchGotoMap`) maps
     `entry.Type.ReflectType()` to the clause body and is dropped when two keys collide
-    (`len(m) != seen.ConcreteMap.Len()`) or it has at most one entry; it is consulted with the
+    (`len(m) != seen.ConcreteMap.Len()`), it contains `case nil`, or it has at most one entry; it is consulted with the
     reflect type of the extracted operand BEFORE any sequential test. -/
 def tsDispatch (guard : Bool) (rt : Option Nat → Nat) (conc : Option Nat → Bool) (ct : Clause → Bool)
     (dyn : Option Nat) (cs : List Clause) : Option Nat :=
-  let m := (tsTable guard conc cs).map (fun e => (rt e.1, e.2))
-  let hit := if m.length > 1 ∧ (m.map (·.1)).Nodup then m.lookup (rt dyn) else none
+  let tbl := tsTable guard conc cs
+  let m := tbl.map (fun e => (rt e.1, e.2))
+  -- `case nil` in the table: typeutil.Map counts the nil key in Len() but Iterate skips it (a nil
+  -- key marks a deleted entry), so `len(m) != seen.ConcreteMap.Len()` and the table is dropped
+  let hit := if m.length > 1 ∧ tbl.all (fun e => e.1.isSome) = true ∧ (m.map (·.1)).Nodup
+             then m.lookup (rt dyn) else none
   match hit with
   | some i => some i
   | none =>
